@@ -297,6 +297,17 @@ func genCase(t *rapid.T, maxMsgs int) Case {
 			m.Size = 70000
 		case 2, 3:
 			m.Size = 100
+		case 4:
+			// the encoded packet sits on a boundary of the remaining-length encoding (1/2/3/4 length bytes)
+			b := rapid.SampledFrom([]int{127, 128, 16383, 16384, 2097151, 2097152}).Draw(t, "rlBoundary")
+			m.Size = b - 2 - len(m.Topic) - 2*rapid.IntRange(0, 1).Draw(t, "withID") + rapid.IntRange(-1, 1).Draw(t, "off")
+		case 5:
+			// larger than any buffer on the way (1 MiB, 4 MiB), rarely
+			if rapid.IntRange(0, 2).Draw(t, "big") == 0 {
+				m.Size = rapid.SampledFrom([]int{1<<20 - 40, 1<<20 + 1, 1<<20 + 70000, 3 << 20, 4<<20 + 5}).Draw(t, "bigSize")
+			} else {
+				m.Size = 8
+			}
 		default:
 			m.Size = 8
 		}
